@@ -13,6 +13,12 @@ per method over the TYPES and the LEAF FUNCTIONS of the hand model `Model/Angles
   GONAngle(x) = .gonA x, HPAngle(x) = mkHP x (validating), DMSAngle(d, m, s) = mkDMS …, DDMAngle(d, m) = mkDDM …,
   and the float primitives of `AngArith` (abs, round, divmod, %, int(), comparisons).
 
+Nineteen module-level functions that are themselves wiring over those leaves (compositions such as `hp2gon = dec2gon ∘ hp2dec`,
+the `divmod` splits of `dec2dms` / `dec2ddm` / `dd2sec`, `hp2dms` / `hp2ddm` on the fields of `_hp_fields`, the `…a` forms that
+wrap a number into a class) are regenerated as well (`GenAng.leaf_<name>`, list `WIRING`) and `Proofs/C08b.lean` proves each equal
+to the hand model's function of the same name; after that only `dec2hp`, `_hp_fields`, `hp2dec` (digit-level string work),
+`dec2hp_v`, `hp2dec_v` (numpy) and the constructors' validation are tied by correspondence alone.
+
 It then emits, per method name, a dispatcher over `AngleObj` (what `obj.method()` means for an object of unknown class;
 a class without the method gives AttributeError, `int()/float()` of a class without `__int__/__float__` TypeError).
 `Proofs/C12b.lean` proves every dispatcher equal to the hand model's method (`GenAng.add a b = a.add b`, …), so the C08/C12
@@ -57,6 +63,11 @@ LEAF = {'dec2hp': ('dec2hp', 'flt', False), 'dec2gon': ('dec2gon', 'flt', False)
         'dec2dms': ('dec2dms', 'dms', False), 'dec2ddm': ('dec2ddm', 'ddm', False), 'hp2dms': ('hp2dms', 'dms', False),
         'hp2ddm': ('hp2ddm', 'ddm', False), 'gon2dms': ('gon2dms', 'dms', False), 'gon2ddm': ('gon2ddm', 'ddm', False),
         'radians': ('radians', 'flt', False)}
+# module-level functions that are wiring over the leaves above (a composition, a divmod split, a constructor call): regenerated
+# too and proved equal to the hand model's definition of the same name.  What stays hand-modelled only: dec2hp, _hp_fields,
+# hp2dec (digit-level string work), dec2hp_v, hp2dec_v (numpy) and angular_typecheck.
+WIRING = ['dec2hpa', 'dec2gon', 'dec2gona', 'dec2dms', 'dec2ddm', 'hp2deca', 'hp2rad', 'hp2gon', 'hp2gona', 'hp2dms', 'hp2ddm',
+          'gon2dec', 'gon2deca', 'gon2hp', 'gon2hpa', 'gon2rad', 'gon2dms', 'gon2ddm', 'dd2sec']
 KIND_TY = {'flt': 'α', 'int': 'Int', 'bool': 'Bool', 'obj': 'AngleObj α', 'dms': 'DMS α', 'ddm': 'DDM α'}
 # parameters of the methods: name -> kind
 OTHER_OBJ = {'__add__', '__radd__', '__sub__', '__rsub__', '__eq__', '__ne__', '__lt__', '__gt__'}
@@ -101,6 +112,7 @@ class Tr:
                     if m.decorator_list:
                         raise TranslateError(f'{self.path}:{m.lineno}: {node.name}.{m.name} is decorated')
                     self.methods[(CLASSES[node.name][0], m.name)] = m
+        self.funcs = {n.name: n for n in self.tree.body if isinstance(n, ast.FunctionDef)}
         have = {c for c, _ in self.methods}
         if have != {'DEC', 'HP', 'GON', 'DMS', 'DDM'}:
             raise TranslateError(f'{self.path}: angle classes found: {sorted(have)}')
@@ -123,7 +135,24 @@ class Tr:
                     self.inprogress.clear()
                     del self.methods[key]
                     self.dropped.append(f'method {key[0]}Angle.{key[1]} (not modelled: {str(e)[-80:]})')
+        self.wiring = []
+        for name in WIRING:
+            if name not in self.funcs:
+                raise TranslateError(f'{self.path}: module-level function {name} not found')
+            self.wiring.append(self.wiring_function(self.funcs[name]))
         return self.emit()
+
+    def wiring_function(self, fn):
+        self.cur = fn.name
+        a = fn.args
+        if fn.decorator_list:
+            self.err(fn, 'decorated')
+        if a.vararg or a.kwarg or a.kwonlyargs or a.posonlyargs or a.defaults or len(a.args) != 1:
+            self.err(fn, 'parameter list differs from one positional number')
+        par = a.args[0].arg
+        body, k = self.block(strip_doc(fn.body), {par: (par, 'flt')}, None, 1)
+        return [f'/-- `{fn.name}` (module level) -/',
+                f'def leaf_{fn.name} ({par} : α) : Except PyErr ({KIND_TY[k]}) := do'] + body
 
     def need(self, key, node=None):
         if key in self.texts:
@@ -185,7 +214,7 @@ class Tr:
 
     def arith(self, op, a, ka, b, kb, node, pre, right_is_param):
         sym = {ast.Add: '+', ast.Sub: '-', ast.Mult: '*', ast.Div: '/'}[type(op)]
-        if isinstance(op, ast.Div) and ka == 'nat' and kb == 'lit':
+        if isinstance(op, ast.Div) and ka in ('nat', 'lit') and kb == 'lit':
             return f'(natDiv {a} {b})', 'flt'
         if ka == 'nat':
             a, ka = f'(ofNat {a})', 'flt'
@@ -255,9 +284,17 @@ class Tr:
         if isinstance(e, ast.Compare) and len(e.ops) == 1:
             a, ka = self.expr(e.left, env, pre, c)
             b, kb = self.expr(e.comparators[0], env, pre, c)
+            if ka == 'lit':
+                a, ka = f'(ofNat {a})', 'flt'
+            if kb == 'lit':
+                b, kb = f'(ofNat {b})', 'flt'
             if ka != 'flt' or kb != 'flt':
                 self.err(e, f'comparison of kinds {ka}, {kb}')
             op = e.ops[0]
+            if isinstance(op, ast.GtE):
+                return f'(leb {b} {a})', 'bool'
+            if isinstance(op, ast.LtE):
+                return f'(leb {a} {b})', 'bool'
             if isinstance(op, ast.Eq):
                 return f'(eqb {a} {b})', 'bool'
             if isinstance(op, ast.NotEq):
@@ -267,6 +304,14 @@ class Tr:
             if isinstance(op, ast.Gt):
                 return f'(ltb {b} {a})', 'bool'
             self.err(e, 'comparison operator outside the modelled subset')
+        if isinstance(e, ast.Call) and isinstance(e.func, ast.Name) and e.func.id in ('DMSAngle', 'DDMAngle') and len(e.keywords) == 1 \
+                and e.keywords[0].arg == 'positive' and isinstance(e.keywords[0].value, ast.Constant) \
+                and isinstance(e.keywords[0].value.value, bool) and len(e.args) == (3 if e.func.id == 'DMSAngle' else 2):
+            a = [self.pynum(x, env, pre, c) for x in e.args]
+            pos = 'true' if e.keywords[0].value.value else 'false'
+            if e.func.id == 'DMSAngle':
+                return f'(mkDMS {a[0]} {a[1]} {a[2]} (some {pos}))', 'dms'
+            return f'(mkDDM {a[0]} {a[1]} (some {pos}))', 'ddm'
         if isinstance(e, ast.Call):
             if e.keywords:
                 self.err(e, 'keyword arguments are outside the modelled subset')
@@ -339,6 +384,11 @@ class Tr:
                 if k != 'flt':
                     self.err(e, f'int() of kind {k}')
                 return f'(trunc {t})', 'int'
+            if n == '_hp_fields' and len(e.args) == 1:
+                t, k = self.expr(e.args[0], env, pre, c)
+                if k != 'flt':
+                    self.err(e, f'_hp_fields() of kind {k}')
+                return f'(hpFields {t})', 'hpfields'
             if n == 'divmod' and len(e.args) == 2:
                 a, ka = self.expr(e.args[0], env, pre, c)
                 b, kb = self.expr(e.args[1], env, pre, c)
@@ -352,7 +402,7 @@ class Tr:
     def ret(self, e, env, c, pad):
         pre = []
         t, k = self.expr(e, env, pre, c)
-        if k in ('nat', 'lit', 'tuple2', 'ndigits'):
+        if k in ('nat', 'lit', 'tuple2', 'ndigits', 'hpfields'):
             self.err(e, f'returns a value of kind {k}')
         return [pad + p for p in pre] + [f'{pad}pure {t}'], k
 
@@ -390,6 +440,14 @@ class Tr:
                 pre = []
                 t, k = self.expr(s.value, env, pre, c)
                 L += [pad + p for p in pre]
+                if isinstance(tgt, ast.Tuple) and k == 'hpfields' and len(tgt.elts) == 4 and all(isinstance(x, ast.Name) for x in tgt.elts) \
+                        and tgt.elts[3].id == '_':
+                    v = self.fresh('f')
+                    L.append(f'{pad}let {v} := {t}')
+                    env[tgt.elts[0].id] = (f'{v}.deg', 'nat')
+                    env[tgt.elts[1].id] = (f'{v}.min', 'nat')
+                    env[tgt.elts[2].id] = (f'{v}.sec', 'flt')
+                    continue
                 if isinstance(tgt, ast.Tuple) and k == 'tuple2' and len(tgt.elts) == 2 and all(isinstance(x, ast.Name) for x in tgt.elts):
                     v = self.fresh('dm')
                     L.append(f'{pad}let {v} := {t}')
@@ -503,6 +561,8 @@ class Tr:
                 done.add(key)
         for pyname in sorted({p for _, p in self.methods}):
             emit_disp(pyname)
+        for w in self.wiring:
+            o.extend(w + [''])
         o += ['end', '', 'end GenAng', '']
         return '\n'.join(o)
 
